@@ -49,11 +49,11 @@ theorem translate_eq_resolve {d : Dim} {r : Ref} {k : Nat} (h : resolve d r = .i
     simp only [Option.none_or]
     -- rules 1-4 are silent: `r` is the decimal string of item k's element id, or its position
     rcases (denotesAt_iff hk).mp hdk with hsp | hpos
-    · simp only [spellings, List.mem_cons, List.not_mem_nil, or_false] at hsp
-      rcases hsp with rfl | rfl | rfl | rfl
+    · rcases mem_spellings.mp hsp with rfl | rfl | rfl | ⟨hns, rfl⟩
       · rw [rule1_str (alias_mem hk)] at h1; cases h1
-      · obtain ⟨a, ha⟩ := rule4_str (subvarId_mem hk); rw [ha] at h4; cases h4
       · obtain ⟨a, ha⟩ := byEid_isSome_of_mem (eid_mem hk); simp [rule2, ha] at h2
+      rotate_left
+      · obtain ⟨a, ha⟩ := rule4_str (subvarId_mem hns hk); rw [ha] at h4; cases h4
       · obtain ⟨a, ha⟩ := byEid_isSome_of_mem (eid_mem hk)
         have h5 : rule5 d (.str (decStr (item d k).eid)) = some a := by
           simp [rule5, asInt, CrCube.Shim.pyInt_decStr, ha]
@@ -61,7 +61,7 @@ theorem translate_eq_resolve {d : Dim} {r : Ref} {k : Nat} (h : resolve d r = .i
         simp only [Option.some_or]
         obtain ⟨j, hj, he, hja⟩ := byEid_some ha
         have : Den d (.str (decStr (item d k).eid)) j :=
-          ⟨hj, (denotesAt_iff hj).mpr (Or.inl (by simp [spellings, he]))⟩
+          ⟨hj, (denotesAt_iff hj).mpr (Or.inl (mem_spellings.mpr (Or.inr (Or.inr (Or.inl (by rw [he]))))))⟩
         rw [← hja, huniq j this]
     · obtain ⟨n, hc, hne, h0, hlt, hnk⟩ := positionOf_some hpos
       have hn := asInt_of_canon hc
@@ -92,18 +92,16 @@ theorem unmatched_none {d : Dim} {r : Ref} (h : resolve d r = .nothing) : transl
 
 /-! ### spellings agree under `NoCollision` -/
 
-theorem strs_of_spelling {it : Item} {s : String} (h : Ref.str s ∈ spellings it) : s ∈ strs it := by
-  simp only [spellings, List.mem_cons, Ref.str.injEq, List.not_mem_nil, or_false] at h
-  simp only [strs, List.mem_cons, List.not_mem_nil, or_false]
-  rcases h with h | h | h | h
-  · exact Or.inl h
-  · exact Or.inr (Or.inl h)
+theorem strs_of_spelling {d : Dim} {it : Item} {s : String} (h : Ref.str s ∈ spellings d it) : s ∈ strs d it := by
+  rcases mem_spellings.mp h with h | h | h | ⟨hns, h⟩
+  · exact mem_strs.mpr (Or.inl (by simpa using h))
   · cases h
-  · exact Or.inr (Or.inr h)
+  · exact mem_strs.mpr (Or.inr (Or.inl (by simpa using h)))
+  · exact mem_strs.mpr (Or.inr (Or.inr ⟨hns, by simpa using h⟩))
 
 /-- under `NoCollision` every spelling of item `k` denotes item `k` and nothing else -/
 theorem noCollision_denotes {d : Dim} (h : NoCollision d) {k : Nat} (hk : k < d.size) {r : Ref}
-    (hr : r ∈ spellings (item d k)) : denotes d r = [k] := by
+    (hr : r ∈ spellings d (item d k)) : denotes d r = [k] := by
   apply denotes_eq_single ⟨hk, (denotesAt_iff hk).mpr (Or.inl hr)⟩
   rintro j ⟨hj, hdj⟩
   refine Classical.byContradiction fun hne => ?_
@@ -113,18 +111,24 @@ theorem noCollision_denotes {d : Dim} (h : NoCollision d) {k : Nat} (hk : k < d.
   · -- a spelling shared by two items
     cases r with
     | int n =>
-      simp only [spellings, List.mem_cons, List.not_mem_nil, or_false] at hr hsj
-      have e1 : n = (item d k).eid := by simpa using hr
-      have e2 : n = (item d j).eid := by simpa using hsj
+      have e1 : n = (item d k).eid := by
+        rcases mem_spellings.mp hr with h | h | h | ⟨_, h⟩
+        · cases h
+        · simpa using h
+        · cases h
+        · cases h
+      have e2 : n = (item d j).eid := by
+        rcases mem_spellings.mp hsj with h | h | h | ⟨_, h⟩
+        · cases h
+        · simpa using h
+        · cases h
+        · cases h
       exact hpair.2 (e1.symm.trans e2)
     | str s => exact hpair.1 s (strs_of_spelling hr) (strs_of_spelling hsj)
-    | null => simp [spellings] at hr
+    | null => rcases mem_spellings.mp hr with h | h | h | ⟨_, h⟩ <;> cases h
   · -- a spelling of item k read as the position of item j
-    simp only [spellings, List.mem_cons, List.not_mem_nil, or_false] at hr
-    rcases hr with rfl | rfl | rfl | rfl
+    rcases mem_spellings.mp hr with rfl | rfl | rfl | ⟨hns, rfl⟩
     · rcases hposk (item d k).alias (by simp) with hp | hp <;> rw [hp] at hpj <;> simp at hpj
-      exact hne hpj.symm
-    · rcases hposk (item d k).subvarId (by simp) with hp | hp <;> rw [hp] at hpj <;> simp at hpj
       exact hne hpj.symm
     · obtain ⟨n, hc, hnot, _⟩ := positionOf_some hpj
       simp only [canonNumber, Option.some.injEq] at hc
@@ -133,20 +137,25 @@ theorem noCollision_denotes {d : Dim} (h : NoCollision d) {k : Nat} (hk : k < d.
       rw [canon_decStr] at hc
       simp only [Option.some.injEq] at hc
       exact hnot (hc ▸ eid_mem hk)
+    · rcases hposk (item d k).subvarId (by simp [svStr, hns]) with hp | hp <;> rw [hp] at hpj <;> simp at hpj
+      exact hne hpj.symm
 
-/-- C19, first clause: alias, sub-variable id, int element id and string element id of an item
-    all resolve to that item (its alias), provided no spelling is shared (`NoCollision`). -/
+/-- C19, first clause: alias, int element id and string element id of an item -- and its
+    sub-variable id, on a dimension whose elements all carry one -- all resolve to that item (its
+    alias), provided no spelling is shared (`NoCollision`). -/
 theorem spellings_agree {d : Dim} (h : NoCollision d) {k : Nat} (hk : k < d.size) :
     translate d (.str (item d k).alias) = some (item d k).alias ∧
-    translate d (.str (item d k).subvarId) = some (item d k).alias ∧
+    (d.noSubvarIds = false → translate d (.str (item d k).subvarId) = some (item d k).alias) ∧
     translate d (.int (item d k).eid) = some (item d k).alias ∧
     translate d (.str (decStr (item d k).eid)) = some (item d k).alias := by
-  have key : ∀ r ∈ spellings (item d k), translate d r = some (item d k).alias := by
+  have key : ∀ r ∈ spellings d (item d k), translate d r = some (item d k).alias := by
     intro r hr
     apply translate_eq_resolve
     simp [resolve, noCollision_denotes h hk hr]
-  exact ⟨key _ (by simp [spellings]), key _ (by simp [spellings]), key _ (by simp [spellings]),
-         key _ (by simp [spellings])⟩
+  exact ⟨key _ (mem_spellings.mpr (Or.inl rfl)),
+         fun hns => key _ (mem_spellings.mpr (Or.inr (Or.inr (Or.inr ⟨hns, rfl⟩)))),
+         key _ (mem_spellings.mpr (Or.inr (Or.inl rfl))),
+         key _ (mem_spellings.mpr (Or.inr (Or.inr (Or.inl rfl))))⟩
 
 /-- "a number that is no element id is taken as a zero-based position" — int spelling
     (unconditional: no other rule can capture an int). -/
@@ -204,12 +213,16 @@ theorem collision_inherent {d : Dim} (h : ¬ NoCollision d) :
     rcases hp with ⟨s, hsi, hsj⟩ | heq
     · refine ⟨.str s, i, j, hne, ⟨hi, (denotesAt_iff hi).mpr (Or.inl ?_)⟩,
                ⟨hj, (denotesAt_iff hj).mpr (Or.inl ?_)⟩⟩
-      · simp only [strs, List.mem_cons, List.not_mem_nil, or_false] at hsi
-        rcases hsi with rfl | rfl | rfl <;> simp [spellings]
-      · simp only [strs, List.mem_cons, List.not_mem_nil, or_false] at hsj
-        rcases hsj with rfl | rfl | rfl <;> simp [spellings]
-    · refine ⟨.int (item d i).eid, i, j, hne, ⟨hi, (denotesAt_iff hi).mpr (Or.inl (by simp [spellings]))⟩,
-               ⟨hj, (denotesAt_iff hj).mpr (Or.inl (by simp [spellings, heq]))⟩⟩
+      · rcases mem_strs.mp hsi with rfl | rfl | ⟨hns, rfl⟩
+        · exact mem_spellings.mpr (Or.inl rfl)
+        · exact mem_spellings.mpr (Or.inr (Or.inr (Or.inl rfl)))
+        · exact mem_spellings.mpr (Or.inr (Or.inr (Or.inr ⟨hns, rfl⟩)))
+      · rcases mem_strs.mp hsj with rfl | rfl | ⟨hns, rfl⟩
+        · exact mem_spellings.mpr (Or.inl rfl)
+        · exact mem_spellings.mpr (Or.inr (Or.inr (Or.inl rfl)))
+        · exact mem_spellings.mpr (Or.inr (Or.inr (Or.inr ⟨hns, rfl⟩)))
+    · refine ⟨.int (item d i).eid, i, j, hne, ⟨hi, (denotesAt_iff hi).mpr (Or.inl (mem_spellings.mpr (Or.inr (Or.inl rfl))))⟩,
+               ⟨hj, (denotesAt_iff hj).mpr (Or.inl (mem_spellings.mpr (Or.inr (Or.inl (by rw [heq])))))⟩⟩
   · -- an alias / sub-variable id reads as the position of another item
     simp only [Classical.not_forall] at h
     obtain ⟨i, hi, hp⟩ := h
@@ -223,8 +236,14 @@ theorem collision_inherent {d : Dim} (h : ¬ NoCollision d) :
       have hp : p < d.size := by omega
       refine ⟨.str s, i, p, fun e => hnot (by rw [hpos, e]), ⟨hi, (denotesAt_iff hi).mpr (Or.inl ?_)⟩,
                ⟨hp, (denotesAt_iff hp).mpr (Or.inr hpos)⟩⟩
-      simp only [List.mem_cons, List.not_mem_nil, or_false] at hs
-      rcases hs with rfl | rfl <;> simp [spellings]
+      simp only [List.mem_append, List.mem_cons, List.not_mem_nil, or_false] at hs
+      rcases hs with rfl | hs
+      · exact mem_spellings.mpr (Or.inl rfl)
+      · cases hns : d.noSubvarIds with
+        | true => simp [svStr, hns] at hs
+        | false =>
+          simp only [svStr, hns, Bool.false_eq_true, if_false, List.mem_cons, List.not_mem_nil, or_false] at hs
+          exact mem_spellings.mpr (Or.inr (Or.inr (Or.inr ⟨hns, by rw [hs]⟩)))
 
 /-! ### every slot resolves through `translate` -/
 
@@ -255,7 +274,7 @@ theorem sameItem_translate {d : Dim} {r r' : Ref} (h : SameItem d r r') :
 
 /-- under `NoCollision`, any two spellings of the same item mean the same -/
 theorem sameItem_of_spellings {d : Dim} (h : NoCollision d) {k : Nat} (hk : k < d.size) {r r' : Ref}
-    (hr : r ∈ spellings (item d k)) (hr' : r' ∈ spellings (item d k)) : SameItem d r r' :=
+    (hr : r ∈ spellings d (item d k)) (hr' : r' ∈ spellings d (item d k)) : SameItem d r r' :=
   Or.inl ⟨k, by simp [resolve, noCollision_denotes h hk hr], by simp [resolve, noCollision_denotes h hk hr']⟩
 
 theorem shimIds_sameItem {d : Dim} {l l' : List Ref} (h : ListRel (SameItem d) l l') :
